@@ -1,0 +1,86 @@
+//go:build verif
+
+// Contracts for the deductive checks under /verif (comment-only; no code).
+
+package iter
+
+// ---- C43: iterator combinators (generic bodies; the element types are opaque sorts) -----------
+// the underlying iterator of a combinator: calling it may change only its own state
+//@ func iface Iter.Next
+//@ func iface Iter.Val
+//@ func iface Iter.Close
+
+// SliceIter: the k-th successful Next yields Slice[k-1]; Next fails exactly when the slice is used up
+//@ func (*SliceIter).Next
+//@   prop C43
+//@   arith int-assumed
+//@   safety index
+//@   requires s != nil && -1 <= s.i
+//@   modifies s.i, s.val
+//@   ensures[advances] s.i == old(s.i) + 1
+//@   ensures[yields_the_next_element] result == (s.i < len(s.Slice)) && (result ==> s.val == s.Slice[s.i])
+//@   ensures[value_kept_at_the_end] !result ==> s.val == old(s.val)
+
+// LimitIter: yields a value only when the underlying iterator does, counts what it yields, and never
+// asks the underlying iterator for more once the limit is reached
+//@ func (*LimitIter).Next
+//@   prop C43
+//@   arith int-assumed
+//@   requires l != nil && 0 <= l.count
+//@   modifies l.count
+//@   site[never_reads_past_the_limit] invoke:Iter.Next : l.limit <= 0 || l.count < l.limit
+//@   ensures[limit_reached] l.limit > 0 && old(l.count) >= l.limit ==> !result && !called("invoke:Iter.Next#0") && l.count == old(l.count)
+//@   ensures[follows_the_underlying_iterator] !(l.limit > 0 && old(l.count) >= l.limit) ==> called("invoke:Iter.Next#0") && result == res("invoke:Iter.Next#0", 0)
+//@   ensures[counts_what_it_yields] l.count == old(l.count) + ite(result, 1, 0)
+//@   ensures[never_more_than_limit] l.limit > 0 && old(l.count) <= l.limit ==> l.count <= l.limit
+//@ func (*LimitIter).Val
+//@   prop C43
+//@   arith int
+//@   requires l != nil
+//@   ensures[value_of_the_underlying_iterator] called("invoke:Iter.Val#0") && result == res("invoke:Iter.Val#0", 0)
+//@ func (*LimitIter).Close
+//@   prop C43
+//@   arith int
+//@   requires l != nil
+//@   ensures[closes_the_underlying_iterator] called("invoke:Iter.Close#0") && result == res("invoke:Iter.Close#0", 0)
+//@   site[its_own_iterator] invoke:Iter.Close : arg0 == l.iter
+
+// MapIter: one underlying element per yielded element, transformed by f; once the underlying
+// iterator is exhausted it is not asked again
+//@ func (*MapIter).Next
+//@   prop C43
+//@   arith int
+//@   requires m != nil
+//@   modifies all
+//@   dyn callfield:f noeffect
+//@   site[not_after_the_end] invoke:Iter.Next : !m.done
+//@   site[maps_the_current_element] callfield:f : arg0 == res("invoke:Iter.Val#0", 0) && res("invoke:Iter.Next#0", 0)
+//@   ensures[done_is_final] old(m.done) ==> !result && !called("invoke:Iter.Next#0")
+//@   ensures[yields_iff_underlying_does] !old(m.done) ==> result == res("invoke:Iter.Next#0", 0)
+//@   ensures[value_is_the_image] result ==> called("callfield:f#0") && m.val == res("callfield:f#0", 0)
+//@ func (*MapIter).Close
+//@   prop C43
+//@   arith int
+//@   requires m != nil
+//@   ensures[closes_the_underlying_iterator] called("invoke:Iter.Close#0") && result == res("invoke:Iter.Close#0", 0)
+//@   site[its_own_iterator] invoke:Iter.Close : arg0 == m.iter
+
+// FilterIter: a yielded value is an element of the underlying iterator that satisfies f; elements
+// are skipped only when f rejects them; once exhausted the underlying iterator is not asked again
+//@ func (*FilterIter).Next
+//@   prop C43
+//@   arith int
+//@   requires f != nil
+//@   modifies all
+//@   dyn callfield:f noeffect
+//@   site[not_after_the_end] invoke:Iter.Next : !f.done
+//@   site[tests_the_current_element] callfield:f : arg0 == f.val && f.val == res("invoke:Iter.Val#0", 0)
+//@   loop 0 continue[skips_only_rejected_elements] called("callfield:f#0") && !res("callfield:f#0", 0)
+//@   ensures[yields_an_accepted_element] result ==> called("callfield:f#0") && res("callfield:f#0", 0) && f.val == res("invoke:Iter.Val#0", 0) && !f.done
+//@   ensures[stops_only_at_the_end] !result ==> f.done
+//@ func (*FilterIter).Close
+//@   prop C43
+//@   arith int
+//@   requires f != nil
+//@   ensures[closes_the_underlying_iterator] called("invoke:Iter.Close#0") && result == res("invoke:Iter.Close#0", 0)
+//@   site[its_own_iterator] invoke:Iter.Close : arg0 == f.iter
